@@ -871,18 +871,21 @@ def run_c05(ctx, replay_path=None):
 COMMON = dict(level="proof",
               technique="Lean 4 proofs about an executable model of server::l2cap_input/l2cap_output and the attribute access functions + differential correspondence with real server types (ASan/UBSan, exactly-sized heap buffers)",
               assumptions=["servers without fixed handles / includes / secondary services / priorities (handle = index + 1)",
-                           "user handlers obey their documented contract (out_size <= read_size); the harness's handlers do",
+                           "user handlers obey their documented contract (out_size <= read_size; HandlersOk); the harness's handlers do (handlersOk_std)",
+                           "tables / states are well-formed (decidable TableWF / StateWF: what the C++ types guarantee by construction); evaluated by the model driver on every table dumped from the real templates and every initial state",
                            "Prepare/Execute Write with a write queue are exercised on the real code only (attwq models them)"])
 
 T = "BluetoeModel.AttAccess."
 PROPS = {
     "C01": dict(COMMON,
-                theorems=[T + "step_len_le_mtu", T + "step_framing_partial", T + "step_silent", T + "step_no_oob_read"],
-                imports=["BluetoeModel.AttAccess.Props", "BluetoeModel.AttAccess.Safety"],
+                theorems=[T + "step_len_le_mtu", T + "step_framing_partial", T + "step_silent", T + "step_no_oob_read",
+                          T + "step_no_oob", T + "step_assert_iff", T + "history_no_oob", T + "notify_no_oob",
+                          T + "readAccess_ok", T + "writeAccess_ok", T + "handlersOk_std"],
+                imports=["BluetoeModel.AttAccess.Props", "BluetoeModel.AttAccess.Safety", "BluetoeModel.AttAccess.StepSafety"],
                 witnesses=[T + "step_framing_full_witness"],
                 run=run_c01, design_ref="§5 C01",
-                level_text="For every server table without gaps, every memory/connection state and every non-empty PDU the model of l2cap_input never returns more than min(out_size, negotiated MTU) bytes and answers every request with its response opcode or an Error Response naming it; tied to the code by differential runs on 14 real server types (+2 write-queue servers on the real code only).",
-                level_note="Input side of memory safety is proved (step_no_oob_read: no read outside the PDU). The output / value-memory side (the model's explicit oobWrite / assertFail / Rc.oob results are never produced for well-formed tables) is NOT proved in Lean; it rests on ASan/UBSan over exactly-sized heap buffers on the real code plus the correspondence (a model run that takes such a branch prints MODEL-OOB-* and disagrees). Full framing statement is false of the code (unknown commands / 0x1B / malformed 0x1E are answered, pinned by tests): witness theorem + partial theorem + known findings."),
+                level_text="For every server table without gaps, every memory/connection state and every non-empty PDU the model of l2cap_input never returns more than min(out_size, negotiated MTU) bytes and answers every request with its response opcode or an Error Response naming it. Memory safety, both halves: no read outside the input PDU (step_no_oob_read, unconditional) and, for every well-formed table and state (decidable TableWF/StateWF: max MTU >= 23, a 128 bit value attribute follows its declaration, bound memory >= sizeof(T), CCCD positions inside the connection's array -- evaluated by the model driver on every table dumped from the real templates), every handler implementation obeying the documented contract (out_size <= read_size), every non-empty PDU and out_size >= 23, the result is a PDU: no write outside the output buffer, no copy outside a value in memory, no assert (step_no_oob); the precondition is exact (step_assert_iff: the asserts of l2cap_input fire iff it is violated) and invariant, so the same holds for every history (history_no_oob) and for l2cap_output (notify_no_oob). Tied to the code by differential runs on 14 real server types (+2 write-queue servers on the real code only) under ASan/UBSan with exactly-sized heap buffers.",
+                level_note="Read By Type swallows a failing attribute access in the code and in the model (collectStep ignores the access result), so for that path the value-memory claim is carried by readAccess_ok (no access to any table attribute leaves its value) rather than by the PDU result. Full framing statement is false of the code (unknown commands / 0x1B / malformed 0x1E are answered, pinned by tests): witness theorem + partial theorem + known findings."),
     "C08": dict(COMMON,
                 theorems=[T + "mtu_after_history", T + "invalid_exchange_rejected", T + "response_le_negotiated", T + "notification_le_negotiated"],
                 witnesses=[T + "notification_unfixed_witness"],
@@ -890,15 +893,20 @@ PROPS = {
                 level_text="client MTU after any history = last valid exchanged value or 23; invalid exchanges are rejected without state change; responses and (with fix attaccess-01) notifications/indications never exceed min(server MTU, client MTU).",
                 level_note="requires fixes/attaccess-01-l2cap-output-mtu.patch; without it the check reports C08:notification-exceeds-negotiated-mtu"),
     "C06": dict(COMMON,
-                theorems=[T + "write_refines", T + "write_rejected_unchanged", T + "read_refines", T + "no_write_enforced", T + "no_read_enforced_bound", T + "properties_match_permissions_partial"],
-                witnesses=[T + "no_read_handler_witness"],
-                run=run_c06, design_ref="§5 C06", imports=["BluetoeModel.AttAccess.ValueProps"],
-                level_text="Write Request to a bound value stores exactly the written bytes at offset 0 and changes nothing else, a rejected write changes nothing, Read / Read Blob return the value from the offset truncated to MTU-1 or Invalid Offset past the end; permissions are enforced for bound / fixed values.",
-                level_note="no_read_access is not enforced for handler and cstring values (known finding, witness theorem)"),
+                theorems=[T + "write_refines", T + "write_rejected_unchanged", T + "read_refines", T + "no_write_enforced", T + "no_read_enforced_bound", T + "properties_match_permissions_partial",
+                          T + "write_property_matches_permission", T + "read_property_matches_permission_partial", T + "read_property_excluded_all_fail",
+                          T + "declared_read_permitted", T + "declared_write_permitted", T + "handler_read_refines", T + "handler_write_refines",
+                          T + "handler_permissions_enforced", T + "no_read_access_enforced_partial", T + "no_read_cstring_all_fail"],
+                witnesses=[T + "no_read_handler_witness", T + "read_property_full_witness", T + "no_read_access_handler_witness", T + "no_read_access_cstring_witness"],
+                run=run_c06, design_ref="§5 C06", imports=["BluetoeModel.AttAccess.ValueProps", "BluetoeModel.AttAccess.Permissions"],
+                level_text="Write Request to a bound value stores exactly the written bytes at offset 0 and changes nothing else, a rejected write changes nothing, Read / Read Blob return the value from the offset truncated to MTU-1 or Invalid Offset past the end. Declared properties vs permissions for every value kind (bound, fixed, cstring/blob, handler): no Write property => every write refused and nothing changes (full strength); no Read property => no read succeeds, except exactly handler values with a read handler and no_read_access; a declared Read / Write property is never answered Read / Write Not Permitted by the library. Handler values under the documented contract (out_size <= read_size): a read/write is exactly the handler's answer (plain handlers: offset 0 only, else Attribute Not Long), write-only / read-only handler characteristics refuse the other direction. The no_read_access option is enforced for bound, fixed and handler-without-read-handler values.",
+                level_note="Excluded inputs = exactly the two known findings: no_read_access is ignored by value_handler_base (handler values with a read handler: declaration lacks Read but reads succeed) and by cstring_wrapper (cstring / fixed blob values: declared readable and readable); witness theorems for both, and theorems that every excluded input does violate the full statement (the exclusion is not larger than the finding)."),
     "C05": dict(COMMON,
-                theorems=[T + "protected_read_rejected", T + "protected_write_rejected", T + "protected_request_rejected", T + "protected_not_notified", T + "protected_not_read_by_type", T + "requiresEnc_table"],
+                theorems=[T + "protected_read_rejected", T + "protected_write_rejected", T + "protected_request_rejected", T + "protected_not_notified", T + "protected_not_read_by_type", T + "requiresEnc_table",
+                          T + "step_noninterference", T + "dispatch_noninterference", T + "notify_noninterference", T + "handleReadMultiple_ni", T + "handleReadByType_ni",
+                          T + "sameUnprotected_of_agree", T + "niSrv_agree"],
                 witnesses=[],
-                run=run_c05, design_ref="§5 C05", imports=["BluetoeModel.AttAccess.ValueProps"],
-                level_text="If the three-level option inheritance says a characteristic requires encryption and the link is not encrypted, every access to its value or CCCD is rejected with 0x05 (no key) / 0x0F before any byte is read or written; Read, Read Blob, Write, Write Command answer with that error, Read By Type skips the attribute, Read Multiple fails, notifications/indications are not sent.",
-                level_note="Prepare/Execute Write belong to attwq (C07)"),
+                run=run_c05, design_ref="§5 C05", imports=["BluetoeModel.AttAccess.ValueProps", "BluetoeModel.AttAccess.NonInterference"],
+                level_text="If the three-level option inheritance says a characteristic requires encryption and the link is not encrypted, every access to its value or CCCD is rejected with 0x05 (no key) / 0x0F before any byte is read or written; Read, Read Blob, Write, Write Command answer with that error, Read By Type skips the attribute, Read Multiple fails, notifications/indications are not sent. Whole-PDU non-interference: on an unencrypted link the response to every request other than Write Request / Write Command (Read, Read Blob, Read Multiple, Read By Type, Find By Type Value, Find Information, Read By Group Type, Exchange MTU, Prepare/Execute without queue, unknown opcodes) and every notification / indication is identical for any two memories that agree on the cells of the unprotected values, i.e. independent of the content of protected memory (step_noninterference, notify_noninterference).",
+                level_note="Prepare/Execute Write with a write queue belong to attwq (C07) and are not part of this model; unprotected handler values are covered under the hypothesis that the user's handler answers the same for both memories (the library cannot confine user code)."),
 }
